@@ -97,6 +97,10 @@ def run(ctx: Ctx) -> Result:
                     exp = c - now < thr
                     cases.append(('CHECK_EPOCH', cfg, {}, G.push(e) + op('CHECK_EPOCH'), 'T' if exp else 'F', (c, None, now, thr)))
                     cases.append(('CHECK_EPOCH_VERIFY', cfg, {}, G.push(e) + op('CHECK_EPOCH_VERIFY'), 'OK' if exp else 'ERR', (c, None, now, thr)))
+                    # the epoch check reads the verifier's clock, never the execution timestamp the embedder supplied
+                    if dn in (-1, 1):
+                        for tstamp in (c, max(0, now - 1000), now + 1000, 0):
+                            cases.append(('CHECK_EPOCH', cfg, {'timestamp': tstamp}, G.push(e) + op('CHECK_EPOCH'), 'T' if exp else 'F', (c, tstamp, now, thr)))
     # malformed inputs: never true
     for thr in ('x',):
         cfg = vmrun.Cfg(ts=thr, epoch=thr)
